@@ -479,6 +479,15 @@ func rulesC11(c *Ctx) {
 			if okp {
 				okp, _ = g.PostDominatedBy(cv[0], func(v int) bool { return v == condV })
 			}
+			// nobody returns from Close before the connection was closed (a concurrent second closer that returns at once
+			// would answer its DELETE while the session is still registered and serving)
+			waits := true
+			for _, r := range f.Returns() {
+				if !g.Dominates(cv[0], g.VertexOf(r)) {
+					waits = false
+				}
+			}
+			c.Check(waits, typ+".Close:every-return-after-conn.Close", f, g.Node(cv[0]), "every return of Close is dominated by conn.Close()")
 			c.Check(okp, typ+".Close:onClose-on-every-path", f, g.Node(cv[0]), "after conn.Close() every path reaches the onClose decision, whatever conn.Close returned (an error from the transport's Close must not leave the session in the handler's table)")
 		}
 		sp := c.Fn(pM, "StreamableHTTPHandler", "serveStatefulPOST")
@@ -508,6 +517,8 @@ func rulesC11(c *Ctx) {
 		}
 		c.Check(okDefer, "serveStatefulPOST:failed-initialize-cleanup", sp, nil, "a session whose creating POST did not initialize it is closed (and thereby forgotten) when the POST ends")
 	})
+
+	c.Rule("R-C11-7", "closing a session always releases what waits on it: the transports' done channels are closed exactly once and on every path of Close (shared with R-C05-13)", func() { closeOnceRule(c) })
 
 	c.Rule("R-C11-6", "stateless endpoints neither read nor issue session ids (outside the compatibility switch) and answer non-POST methods with 405 + Allow", func() {
 		f := c.Fn(pM, "StreamableHTTPHandler", "serveStateless")
